@@ -31,13 +31,13 @@ type Mutant struct {
 }
 
 type SelfTestResult struct {
-	Benign      int      `json:"benign_refactorings"`        // behaviour-preserving patches applied
-	FalseAlarms []string `json:"benign_raising_an_alarm"`    // … that made some obligation fail (must be empty)
-	Total    int      `json:"total"`
-	Killed   int      `json:"killed"`
-	Survived []string `json:"survived"`
-	Stale    []string `json:"stale"` // snippet/patch no longer applies to the current tree
-	Details  []string `json:"details"`
+	Benign      int      `json:"benign_refactorings"`     // behaviour-preserving patches applied
+	FalseAlarms []string `json:"benign_raising_an_alarm"` // … that made some obligation fail (must be empty)
+	Total       int      `json:"total"`
+	Killed      int      `json:"killed"`
+	Survived    []string `json:"survived"`
+	Stale       []string `json:"stale"` // snippet/patch no longer applies to the current tree
+	Details     []string `json:"details"`
 }
 
 func catalogue(prop string) []Mutant {
